@@ -11,7 +11,9 @@
   operation.  The harness waits for quiescence after every operation, so the driver runs the
   internal steps that are enabled to completion in the order the real tasks do:
   every `taskStep` (tasks parked on a full queue first, in parking order — tokio's channel is fair),
-  then (mode `eager`: the real writer task) `writerStep` until the queues are empty, then `connFinish`.  In mode `manual` the harness owns the queue and steps the writer
+  then (mode `eager`: the real writer task) `writerStep` until the queues are empty, then `connFinish`.
+  One outcome is deliberately left open: a closing notification queued in the same settling in which
+  a stopping server finishes the connection may or may not reach the peer (see `settle`).  In mode `manual` the harness owns the queue and steps the writer
   explicitly (`ss wstep c`).
 -/
 import JrpcVerif.Driver.Codec
@@ -150,7 +152,19 @@ def settle (eager : Bool) (st : State) (waiting : List Wait) :
     State × List (List Frame) × List Wait × List String :=
   if eager then
     let (st2, fs, w, d) := settleLoop (st.subs.length + waiting.length + 2) st waiting [] []
-    (finishAll st2, fs, w, d)
+    let st3 := finishAll st2
+    -- Unspecified by the properties (and a scheduling race in the code): whether a closing notification
+    -- that a subscription task queues in the very settling in which the stopping server finishes the
+    -- connection still gets onto the wire.  Such frames are not shown (the harness hides them under the
+    -- same condition: server stopping, connection open before the line and closed after it); the
+    -- oracle still checks them if they do arrive.
+    let fs' := (List.range fs.length).zip fs |>.map (fun (p : Nat × List Frame) =>
+      let finishing := match st2.conns[p.1]?, st3.conns[p.1]? with
+        | some a, some b => a.isOpen && !b.isOpen
+        | _, _ => false
+      if finishing then p.2.filter (fun f => match f with | .closeOk .. => false | .closeErr .. => false | _ => true)
+      else p.2)
+    (st3, fs', w, d)
   else
     let (st1, w1, d1) := settlePass st waiting
     (st1, st1.conns.map (fun _ => []), w1, d1)
